@@ -114,9 +114,18 @@ def lean_audit(module, theorems):
     """Return {theorem: (ok, axioms|error)} via `#print axioms`."""
     src = f'import {module}\n' + ''.join(
         f'#print axioms {t}\n' for t in theorems)
-    path = os.path.join(CACHE, f'audit_{module.replace(".", "_")}.lean')
+    # one file per process: checks of different properties may share a module
+    # and run concurrently
+    path = os.path.join(CACHE,
+                        f'audit_{module.replace(".", "_")}_{os.getpid()}.lean')
     open(path, 'w').write(src)
-    rc, out, err = sh(['lake', 'env', 'lean', path], cwd=LEAN, timeout=3000)
+    try:
+        rc, out, err = sh(['lake', 'env', 'lean', path], cwd=LEAN, timeout=3000)
+    finally:
+        try:
+            os.remove(path)
+        except OSError:
+            pass
     txt = out + err
     res = {}
     # Output can wrap over several lines: join.
